@@ -56,6 +56,21 @@ def ordering_alphabet(N, W, ids):
                     A.append(act("ChReorder", n=n, seq=list(s)))
         for s in graph.seqs(N, 2, 1):
             A.append(act("FloorDiv", n=n, seq=s))
+        # the same facades through handles grabbed before any mutation
+        for t in tasks:
+            A.append(act("ChAppend", n=n, t=t, via=1))
+            A.append(act("ChRemove", n=n, t=t, via=1))
+            for i in (0, 1):
+                A.append(act("ChInsert", n=n, t=t, i=i, via=1))
+            for anchor in tasks:
+                A.append(act("ChMove", n=n, seq=[t], before=anchor, via=1))
+                A.append(act("ChMove", n=n, seq=[t], after=anchor, via=1))
+        for rev in (0, 1):
+            A.append(act("ChSort", n=n, key=1, rev=rev, via=1))
+        for i in sorted(set(ids)):
+            A.append(act("ChReorder", n=n, seq=[i], via=1))
+        for m in nodes:
+            A.append(act("SetChildrenFrom", n=n, t=m, key=1))
     for w in range(N + 1, N + W + 1):
         for t in tasks:
             A.append(act("WbsRemove", n=w, t=t))
@@ -111,7 +126,7 @@ def random_histories(ids, W, count, depth, seed, log, jobs=8):
     events = []
     hist_of = {}
     eid = 0
-    prio = [((i * 2) % 3) for i in range(N)]
+    prio = graph.default_prio(N)
     histories = []
     for h in range(count):
         U = graph.Universe(ids, W, prio=prio)
@@ -162,7 +177,7 @@ def random_histories(ids, W, count, depth, seed, log, jobs=8):
 
 
 def model_states(ids, W, L, level, log):
-    prio = [((i * 2) % 3) for i in range(len(ids))]
+    prio = graph.default_prio(len(ids))
     r = tlc.run_model("MC_TaskGraph", {"N": len(ids), "W": W, "L": L, "LEVEL": level, "EMIT": True},
                       {"IdOf": ids, "Prio": prio}, "mctg", invariants=MC_INVS, properties=MC_PROPS,
                       view="View", workers=16)
@@ -176,7 +191,7 @@ def model_states(ids, W, L, level, log):
 def impl_core_states(res):
     out = set()
     for k in res.state_keys:
-        par, ch, pre, suc, own, attr = eval(k)
+        par, ch, pre, suc, own, attr, hv = eval(k)
         out.add(json.dumps({"ch": ch, "pre": [sorted(set(x)) for x in pre]}, sort_keys=True))
     return out
 
@@ -211,6 +226,7 @@ def run(tier, seed, log):
         res = explore.run(cfg["ids"], cfg["W"], L=cfg.get("L", 2), level=cfg.get("level", 2),
                           alphabet=cfg.get("alphabet"), prune=cfg.get("prune", False), light=cfg.get("light", False),
                           max_levels=cfg.get("max_levels", 99), frontier_cap=cfg.get("frontier_cap"),
+                          max_states=cfg.get("max_states", 6000),
                           rng=rng, log=lambda m, n=cfg["name"]: log("impl %s %s" % (n, m)))
         cov["configs"].append({"name": cfg["name"], "ids": cfg["ids"], "W": cfg["W"], "alphabet": res.alphabet,
                                "states": res.states, "events": res.events, "levels": res.levels,
@@ -224,12 +240,10 @@ def run(tier, seed, log):
         for e, clause in res.fails:
             fails.append({"clause": clause,
                           "universe": {"ids": cfg["ids"], "W": cfg["W"],
-                                       "prio": [((i * 2) % 3) for i in range(len(cfg["ids"]))]},
+                                       "prio": graph.default_prio(len(cfg["ids"]))},
                           "history": explore.history_to(res, e["pk"]) + [e["act"]]})
         if cfg["name"] == "A":
             impl_a = res
-        if fails:
-            break
 
     # --- 3. reachable sets: design vs implementation -------------------------------------------
     if impl_a is not None and impl_a.complete:
@@ -240,7 +254,7 @@ def run(tier, seed, log):
             % (len(mstates), len(istates), len(mstates & istates)))
 
     # --- 4. long random histories over larger universes ----------------------------------------
-    if not fails:
+    if True:
         plans = [([1, 2, 3, 1, 2, 4], 3, 150 if tier == "quick" else 1500, 40)]
         if tier == "thorough":
             plans.append(([1, 2, 3, 4, 5, 1, 2, 6], 3, 600, 60))
